@@ -179,12 +179,12 @@ PLAN["C14"] = dict(
 )
 
 PLAN["C07"] = dict(
-    rule="stateful generation: a tape is decoded into 2-15 operations on ONE manager: Build(constructor call on earlier slots, unions/intersections of two different earlier slots in either operand order over-weighted), Rebuild(k) (the very same call with the very same argument terms), Deriv(k,c), StrDeriv(k,w) (new slots whose reference language is the quotient), Compile(k), IsEmpty(k), GetString(k), Member(k,w), Noise (1-6 unrelated terms shifting ids and parity); 80% on a local ReManager, 20% through the re_* wrappers on the thread-local manager in a fresh thread. At the end every construction is re-issued once more and rebuilt on a fresh manager. "
+    rule="enumeration: 3 scale cases (one manager holding a term with 15 / 280 / 65792 derivative classes: every class derivative of the term and of its complement, requested interleaved, then the construction re-issued); stateful generation: a tape is decoded into 2-15 operations on ONE manager: Build(constructor call on earlier slots, unions/intersections of two different earlier slots in either operand order over-weighted), Rebuild(k) (the very same call with the very same argument terms), Deriv(k,c), StrDeriv(k,w) (new slots whose reference language is the quotient), Compile(k), IsEmpty(k), GetString(k), Member(k,w), Noise (1-6 unrelated terms shifting ids and parity); 80% on a local ReManager, 20% through the re_* wrappers on the thread-local manager in a fresh thread. At the end every construction is re-issued once more and rebuilt on a fresh manager. "
          "Non-trivial = a Rebuild (or the final re-issue) separated from its Build by >= 3 allocating operations including a derivative/compile/emptiness call, and a union/intersection whose operands are not in increasing slot order; distinct = digest of (manager kind, landmarks, operation list).",
     oracle="model: every slot carries the term and its reference DFA (constructor slots: reference operation on the operands' DFAs; derivative slots: reference quotient). After every step: Rebuild is == and pointer-identical; for all pairs of slots a == b <=> same address, and same address => equal reference languages; complement(complement(e)) is e and complement(e) differs from e; the language of each new term (and of its complement) equals its reference by bisimulation (R5), again at the end of the history and on a fresh manager (history independence); is_empty_re/str_in_re answers agree with the reference at every point of the history",
     assumptions=RX_ASSUME + ["union(a,b) and union(b,a) are different argument lists: only equal languages are required of them, not identity", "through the wrappers languages are compared on shortest members/non-members and sampled strings (no derivative API is exposed there)"],
-    quick=dict(proptest={"rel": (12, 4000), "dbg": (4, 1500)}),
-    thorough=dict(proptest={"rel": (16, 80000), "dbg": (8, 20000)}),
+    quick=dict(enum={"rel": 1, "dbg": 1}, proptest={"rel": (12, 4000), "dbg": (4, 1500)}),
+    thorough=dict(enum={"rel": 1, "dbg": 1}, proptest={"rel": (16, 80000), "dbg": (8, 20000)}),
 )
 
 PLAN["C10"] = dict(
